@@ -3,6 +3,7 @@ package kit
 import (
 	"fmt"
 	"os"
+	"runtime"
 	"sort"
 	"strings"
 	"sync"
@@ -266,4 +267,35 @@ func SameList(a, b []string) bool {
 		}
 	}
 	return true
+}
+
+// EngineGoroutines returns, by goroutine id, the first lines of the stack of every goroutine other than the caller that
+// is executing code of the library under test. A synchronous API call must leave the set as it found it: whatever it
+// started has ended when it returns.
+func EngineGoroutines() map[string]string {
+	buf := make([]byte, 1<<20)
+	n := runtime.Stack(buf, true)
+	out := map[string]string{}
+	for i, g := range strings.Split(string(buf[:n]), "\n\n") {
+		if i == 0 || !strings.Contains(g, "github.com/ichiban/prolog") {
+			continue
+		}
+		lines := strings.Split(g, "\n")
+		id := strings.Fields(lines[0])[1]
+		// function names only: arguments, addresses and goroutine ids differ from one execution to the next
+		var fns []string
+		for _, l := range lines[1:] {
+			if strings.HasPrefix(l, "\t") || strings.HasPrefix(l, "created by") {
+				continue
+			}
+			if i := strings.LastIndex(l, "("); i > 0 {
+				l = l[:i]
+			}
+			if len(fns) < 6 {
+				fns = append(fns, l)
+			}
+		}
+		out[id] = strings.Join(fns, " < ")
+	}
+	return out
 }
